@@ -1,7 +1,16 @@
+"""C02 - range searches and lazy key/value/item sequences are exact."""
 from props import _generic as g
 
 
 def run(ctx):
     fns = g.run_pyvc(ctx, "C02")
     ctx.standin("range_rt", families=tuple("OO,II".split(",")))
-    return "proof", "Engine P obligations on %d functions of _base.py for C02 plus the bounded stand-in range_rt" % len(fns)
+    return "proof", (
+        "Engine P (%d targets): the leaf layer - _BucketBase._range for every combination of present / omitted / None / exclusive "
+        "bounds against the interval oracle of the statement, keys() / values() slices (ghost out-parameter for the slice start), "
+        "leaf minKey / maxKey (least key >= b / greatest key <= b, ValueError iff none, TypeError only for an unusable bound); "
+        "the interior-node layer in the ORDER view - _Tree.maxKey(b) returns the greatest key <= b of the whole subtree, also "
+        "through stale separators, and raises ValueError only if no key qualifies (children abstracted by least / greatest key "
+        "and key-set summaries; the same contract assumed for the children; _Tree._search against the separators). "
+        "_Tree.minKey, _Tree.keys / _TreeItems (the lazy sequences) and the C implementation are the bounded stand-in range_rt "
+        "(every bound combination on every reached shape, incl. stale-separator states built through __setstate__)." % len(fns))
